@@ -382,6 +382,10 @@ func c18NestedStage(env *verifEnv, res *verifResult, routes []verifRoute, hv map
 		if strings.HasPrefix(route.Path, "/static/") || strings.HasPrefix(route.Path, "/custom_static/") {
 			continue
 		}
+		if c18Expired() {
+			res.bump("budget_skipped:nested-routes")
+			continue
+		}
 		seen := map[string]bool{}
 		for _, it := range hv[route.Handler].Params {
 			if seen[it.Name] {
